@@ -321,6 +321,47 @@ def _site_facts(ev, ctx, bb, l, K):
     return out
 
 
+def _referent_local(body, op):
+    """the local x for an operand holding `&x` (a plain local with one definition `&x`)"""
+    pl = _plain_local(op)
+    if pl is None:
+        return None
+    defs = [d for d in body.defs().get(pl, []) if not body.blocks[d[0]]["cleanup"]]
+    if len(defs) == 1 and defs[0][2] == "assign" and defs[0][3]["k"] == "ref" and not defs[0][3]["place"]["p"]:
+        return defs[0][3]["place"]["l"]
+    return None
+
+
+def _enum_eq_facts(ev, ctx, bb, bool_local, val):
+    body = ctx.body
+    defs = [d for d in body.defs().get(bool_local, []) if not body.blocks[d[0]]["cleanup"]]
+    if len(defs) != 1 or defs[0][2] != "call":
+        return []
+    dbb, _si, _k, t = defs[0]
+    c = body.callee(dbb)
+    if c is None or c.indirect or c.trait != "std::cmp::PartialEq" or c.name not in ("eq", "ne") or len(t["args"]) != 2:
+        return []
+    if c.name == "ne":
+        val = not val
+    for i, j in ((0, 1), (1, 0)):
+        v = unref(ev.operand(ctx, t["args"][j]))
+        if not (v[0] == "agg" and not v[2] and "::" in v[1] and not v[1].startswith("std::")):
+            continue
+        epath, vname = v[1].rsplit("::", 1)
+        a = ev.facts.adts.get(epath)
+        if not a or a.get("kind") != "Enum" or any(x["fields"] for x in a["variants"]):
+            continue
+        xl = _referent_local(body, t["args"][i])
+        if xl is None:
+            continue
+        if val:
+            return _site_facts(ev, ctx, bb, xl, vname)
+        others = [x["name"] for x in a["variants"] if x["name"] != vname]
+        if len(others) == 1:
+            return _site_facts(ev, ctx, bb, xl, others[0])
+    return []
+
+
 def switch_facts(ev, ctx, bb, target_vals, is_otherwise, listed_vals):
     """facts for taking an edge of the switch terminating block bb.
     target_vals: values leading to the taken target (empty for pure otherwise); listed_vals: all listed values."""
@@ -405,6 +446,11 @@ def switch_facts(ev, ctx, bb, target_vals, is_otherwise, listed_vals):
             pl = _plain_local(discr)
             if pl is not None:
                 for f in _site_facts(ev, ctx, bb, pl, val):
+                    if f not in out:
+                        out.append(f)
+                # `x == Enum::V` / `x != Enum::V` on a field-less enum of the crate (derived PartialEq): what is known where
+                # x got a value of that variant (of the one other variant, for a two-variant enum)
+                for f in _enum_eq_facts(ev, ctx, bb, pl, val):
                     if f not in out:
                         out.append(f)
         return out
